@@ -39,6 +39,7 @@ static int verif_snprintf_ld(char *s, size_t cap, const char *fmt, long v)
 #undef snprintf
 #undef private
 #undef protected
+#include "src/clstepcore/sdai.cc"   /* the real null sentinels (LONG_MAX, FLT_MIN) */
 #include "verif.h"
 
 #define SN6 6
